@@ -193,6 +193,8 @@ class AutoRestartTrick(Trick):
         self._is_process_stopping = False
         self._is_trick_stopping = False
         self._stopping_lock = threading.RLock()
+        # Serialises restarts (dispatcher, debouncer and process watcher threads) with each other and with stop().
+        self._restart_lock = threading.RLock()
 
     def start(self) -> None:
         if self.debounce_interval_seconds:
@@ -210,10 +212,12 @@ class AutoRestartTrick(Trick):
                 return
             self._is_trick_stopping = True
 
-        process_watcher = self.process_watcher
         if self.event_debouncer is not None:
             self.event_debouncer.stop()
-        self._stop_process()
+        # Wait for a restart in progress: it either finished (its child is stopped here) or sees the flag.
+        with self._restart_lock:
+            process_watcher = self.process_watcher
+            self._stop_process()
 
         # Don't leak threads: Wait for background threads to stop.
         if self.event_debouncer is not None:
@@ -275,11 +279,12 @@ class AutoRestartTrick(Trick):
             self._restart_process()
 
     def _restart_process(self) -> None:
-        if self._is_trick_stopping:
-            return
-        self._stop_process()
-        self._start_process()
-        self.restart_count += 1
+        with self._restart_lock:
+            if self._is_trick_stopping:
+                return
+            self._stop_process()
+            self._start_process()
+            self.restart_count += 1
 
 
 if platform.is_windows():
